@@ -138,7 +138,13 @@ class PathCtx:
             pass
         return None
 
+    def past_deadline(self):
+        d = DEADLINE[0]
+        return d is not None and time.time() > d
+
     def _check(self, *extra):
+        if self.past_deadline():
+            return z3.unknown          # the unit's wall-clock budget is used up: nothing further is decided (never a verdict)
         t0 = time.time()
         self.solver.push()
         try:
@@ -154,10 +160,7 @@ class PathCtx:
         """True / False if sign lemmas (pyvc.signs) settle the comparison, else None."""
         if not SIGN_LEMMAS[0]:
             return None
-        if SIGN_ENGINE[0] == '2':
-            from .signs2 import sign_decides
-        else:
-            from .signs import sign_decides
+        from .signs import sign_decides
         return sign_decides(self, cond)
 
     def feasible(self, cond):
@@ -236,6 +239,12 @@ class PathCtx:
         if isinstance(goal, bool):
             goal = z3.BoolVal(goal)
         status, model = 'unknown', None
+        if self.past_deadline():
+            res = ObligationResult(name, 'unknown', None, goal, where, 0.0, 'none (unit wall-clock budget used up)',
+                                   path=[d.choice for d in self.trace[: self.pos]], note=note)
+            res.cross = None
+            self.results.append(res)
+            return res
         self.solver.push()
         try:
             # first attempt: the path's incremental solver with a short budget; nonlinear queries
@@ -295,8 +304,8 @@ class PathCtx:
 
 
 CROSSCHECK = dict(per_clause=0, seen={})
+DEADLINE = [None]        # wall-clock time after which the current unit stops asking the heavy back ends
 SIGN_LEMMAS = [os.environ.get('VERIF_SIGN_LEMMAS', '1') != '0']
-SIGN_ENGINE = [os.environ.get('VERIF_SIGNS', '1')]
 GAVE_UP = {}        # clause name -> number of paths of the current unit on which it stayed undecided
 
 
@@ -487,6 +496,10 @@ def explore(unit_fn, make_ctx, max_paths=4000):
         except InfeasiblePath:
             ctx.outcome = 'infeasible'
         done.append(ctx)
+        if DEADLINE[0] is not None and time.time() > DEADLINE[0]:
+            e = PathLimit('the unit used up its wall-clock budget')
+            e.done = done
+            raise e
         if len(done) > max_paths:
             e = PathLimit(f'more than {max_paths} paths')
             e.done = done        # what was explored is still sound: a clause refuted on a feasible path stays refuted
